@@ -239,8 +239,11 @@ theorem C06_calls (evs : List Event) (now : Ms) (recs : List Rec) :
 
 /-! ### who is called -/
 
+section
+variable {catches : Bool}
+
 /-- the live listener set stays a set under callbacks -/
-theorem applyAct_nodup (ls : List Nat) (h : ls.Nodup) (a : ListenerAct) (ls' : List Nat) (ha : applyAct ls a = .ok ls') : ls'.Nodup := by
+theorem applyAct_nodup (ls : List Nat) (h : ls.Nodup) (a : ListenerAct) (ls' : List Nat) (ha : applyAct catches ls a = .ok ls') : ls'.Nodup := by
   cases a with
   | add l =>
     simp only [applyAct, Except.ok.injEq] at ha
@@ -258,14 +261,16 @@ theorem applyAct_nodup (ls : List Nat) (h : ls.Nodup) (a : ListenerAct) (ls' : L
     simp only [applyAct] at ha
     split at ha
     · cases ha; exact List.Nodup.sublist List.filter_sublist h
-    · cases ha
+    · split at ha
+      · cases ha; exact h
+      · cases ha
 
-theorem runActs_nodup (live : List Nat) (h : live.Nodup) (acts : List ListenerAct) : (runActs live acts).1.Nodup := by
+theorem runActs_nodup (live : List Nat) (h : live.Nodup) (acts : List ListenerAct) : (runActs catches live acts).1.Nodup := by
   unfold runActs
   have gen : ∀ (st : List Nat × Option PyExc), st.1.Nodup →
       (acts.foldl (fun st a => match st.2 with
         | some _ => st
-        | none => match applyAct st.1 a with
+        | none => match applyAct catches st.1 a with
           | .ok l => (l, none)
           | .error e => (st.1, some e)) st).1.Nodup := by
     induction acts with
@@ -278,22 +283,22 @@ theorem runActs_nodup (live : List Nat) (h : live.Nodup) (acts : List ListenerAc
       | some e => simp only []; exact hs
       | none =>
         simp only []
-        cases h3 : applyAct st.1 a with
+        cases h3 : applyAct catches st.1 a with
         | ok l => exact applyAct_nodup st.1 hs a l h3
         | error e => exact hs
   exact gen (live, none) h
 
 /-- the loop of `async_updates` / `async_updates_complete` from an arbitrary intermediate state -/
-def roundFrom (react : Nat → List ListenerAct) (todo : List Nat) (st : Round) : Round :=
+def roundFrom (catches : Bool) (react : Nat → List ListenerAct) (todo : List Nat) (st : Round) : Round :=
   todo.foldl (fun st l =>
     match st.err with
     | some _ => st
     | none =>
-      let r := runActs st.live (react l)
+      let r := runActs catches st.live (react l)
       { called := st.called ++ [l], live := r.1, err := r.2 }) st
 
 theorem roundFrom_err (react : Nat → List ListenerAct) (todo : List Nat) (st : Round) (e : PyExc) (h : st.err = some e) :
-    roundFrom react todo st = st := by
+    roundFrom catches react todo st = st := by
   induction todo with
   | nil => rfl
   | cons l t ih =>
@@ -302,9 +307,9 @@ theorem roundFrom_err (react : Nat → List ListenerAct) (todo : List Nat) (st :
     exact ih
 
 theorem roundFrom_spec (react : Nat → List ListenerAct) (todo : List Nat) (st : Round) (hn : st.live.Nodup) :
-    ∃ k, (roundFrom react todo st).called = st.called ++ k ∧ k <+: todo
-      ∧ ((roundFrom react todo st).err = none → st.err = none ∧ k = todo)
-      ∧ (roundFrom react todo st).live.Nodup := by
+    ∃ k, (roundFrom catches react todo st).called = st.called ++ k ∧ k <+: todo
+      ∧ ((roundFrom catches react todo st).err = none → st.err = none ∧ k = todo)
+      ∧ (roundFrom catches react todo st).live.Nodup := by
   induction todo generalizing st with
   | nil => exact ⟨[], by simp [roundFrom], List.prefix_refl _, fun h => ⟨h, rfl⟩, hn⟩
   | cons l t ih =>
@@ -313,112 +318,19 @@ theorem roundFrom_spec (react : Nat → List ListenerAct) (todo : List Nat) (st 
       rw [roundFrom_err react (l :: t) st e he]
       exact ⟨[], by simp, List.nil_prefix, (fun h => by rw [he] at h; cases h), hn⟩
     | none =>
-      have hstep : roundFrom react (l :: t) st
-          = roundFrom react t { called := st.called ++ [l], live := (runActs st.live (react l)).1, err := (runActs st.live (react l)).2 } := by
+      have hstep : roundFrom catches react (l :: t) st
+          = roundFrom catches react t { called := st.called ++ [l], live := (runActs catches st.live (react l)).1, err := (runActs catches st.live (react l)).2 } := by
         unfold roundFrom
         simp only [List.foldl_cons, he]
       rw [hstep]
-      obtain ⟨k, h1, h2, h3, h4⟩ := ih { called := st.called ++ [l], live := (runActs st.live (react l)).1, err := (runActs st.live (react l)).2 }
+      obtain ⟨k, h1, h2, h3, h4⟩ := ih { called := st.called ++ [l], live := (runActs catches st.live (react l)).1, err := (runActs catches st.live (react l)).2 }
         (runActs_nodup st.live hn (react l))
       refine ⟨l :: k, by rw [h1]; simp, ?_, fun h => ⟨rfl, by rw [(h3 h).2]⟩, h4⟩
       exact List.prefix_cons_inj l |>.2 h2
 
-/-- with the copy, the round is the plain loop over the snapshot -/
-theorem notifyRound_eq_roundFrom (ls : List Nat) (react : Nat → List ListenerAct) :
-    notifyRound ls react = roundFrom react ls { called := [], live := ls, err := none } := by
-  unfold notifyRound notifyRoundWith roundFrom
-  simp
-  rfl
-
-/-- **C06 (who is called), full statement**: in a notification round every listener registered at its start (the
-snapshot) is called exactly once, whatever the callbacks do to the listener set -/
-def C06_listeners_statement : Prop :=
-  ∀ (ls : List Nat), ls.Nodup → ∀ react : Nat → List ListenerAct, ∀ l, (notifyRound ls react).called.count l = if l ∈ ls then 1 else 0
-
-/-- **D18.**  The full statement is false for the code as it is: `async_remove_listener` lets the `KeyError` of
-`set.remove` escape.  Listener 1 removes listener 2; listener 2 — still called, the set was copied — removes itself, as a
-browser's `_async_cancel` or a lookup's `finally` would: the round ends there and listener 3 is never called. -/
-theorem C06_listeners_refuted : ¬ C06_listeners_statement := by
-  intro h
-  have := h [1, 2, 3] (by decide) (fun l => if l = 1 then [.remove 2] else if l = 2 then [.remove 2] else []) 3
-  revert this
-  decide
-
-/-- … and the datagram is lost: the new record of a datagram during which this happens is never cached, no
-`async_update_records_complete` is delivered, and the exception propagates out of `async_updates_from_response` -/
-theorem C06_remove_absent_aborts_ingestion :
-    ∃ d, deliver id id {} [1, 2, 3] 1000 [⟨"a.local.", 1, 1, false, 120, 0, .addr [10, 0, 0, 1] none⟩]
-        (fun l => if l = 1 then [.remove 2] else if l = 2 then [.remove 2] else []) (fun _ => []) = .ok d
-      ∧ d.err = some .keyError ∧ d.round1 = [1, 2] ∧ d.round2 = []
-      ∧ d.cache.getUnique id ⟨"a.local.", 1, 1, false, 120, 0, .addr [10, 0, 0, 1] none⟩ = none :=
-  ⟨_, rfl, by decide, by decide, by decide, by decide⟩
-
-/-- **C06 (who is called; partial: the extra hypothesis is exactly "no callback removes an unregistered listener",
-i.e. the round does not raise).**  The listeners called are always an initial segment of the snapshot taken at the start
-of the round, each at most once, whatever the callbacks add or remove (a listener added during the round is not called in
-it, a listener removed during the round still is); if the round does not raise, it is the whole snapshot, each listener
-exactly once; and the live set stays duplicate-free. -/
-theorem C06_listeners_partial (ls : List Nat) (hnodup : ls.Nodup) (react : Nat → List ListenerAct) :
-    (notifyRound ls react).called <+: ls
-    ∧ (∀ l, (notifyRound ls react).called.count l ≤ 1)
-    ∧ ((notifyRound ls react).err = none →
-        (notifyRound ls react).called = ls ∧ ∀ l, (notifyRound ls react).called.count l = if l ∈ ls then 1 else 0)
-    ∧ (notifyRound ls react).live.Nodup := by
-  obtain ⟨k, h1, h2, h3, h4⟩ := roundFrom_spec react ls { called := [], live := ls, err := none } hnodup
-  rw [notifyRound_eq_roundFrom]
-  have hcalled : (roundFrom react ls { called := [], live := ls, err := none }).called = k := by
-    rw [h1]; simp
-  have hknodup : k.Nodup := List.Nodup.sublist h2.sublist hnodup
-  refine ⟨hcalled ▸ h2, fun l => ?_, fun herr => ?_, h4⟩
-  · rw [hcalled]; exact List.nodup_iff_count.1 hknodup l
-  · have hk := (h3 herr).2
-    rw [hcalled, hk]
-    exact ⟨rfl, fun l => List.Nodup.count hnodup⟩
-
-/-- the second round runs on the set as the first round left it; a datagram whose first round raises has no second round
-and its cache adds and removes never happen -/
-theorem C06_deliver_rounds (order : List Nat → List Nat) (c : Cache) (ls : List Nat) (now : Ms) (recs : List Rec)
-    (react1 react2 : Nat → List ListenerAct) (d : Delivery) (hd : deliver lower order c ls now recs react1 react2 = .ok d) :
-    match d.out.call1 with
-    | none => d.round1 = [] ∧ d.round2 = [] ∧ d.err = none ∧ d.cache = d.out.cache
-    | some call =>
-      d.round1 = (notifyRound (order ls) react1).called
-      ∧ (match (notifyRound (order ls) react1).err with
-         | some e => d.err = some e ∧ d.round2 = [] ∧ d.cache = call.2
-         | none => d.round2 = (notifyRound (order (notifyRound (order ls) react1).live) react2).called
-                   ∧ d.err = (notifyRound (order (notifyRound (order ls) react1).live) react2).err ∧ d.cache = d.out.cache) := by
-  unfold deliver at hd
-  have hdef : ∀ (l : List Nat) (r : Nat → List ListenerAct), notifyRoundWith true l r = notifyRound l r := fun _ _ => rfl
-  simp only [updates_iterates_copy_eq, complete_iterates_copy_eq, hdef] at hd
-  cases hi : ingest lower (Cache.ops lower) c now recs with
-  | error e => rw [hi] at hd; cases hd
-  | ok out =>
-    rw [hi] at hd
-    simp only [bind, Except.bind] at hd
-    cases hc : out.call1 with
-    | none =>
-      rw [hc] at hd
-      simp only [pure, Except.pure, Except.ok.injEq] at hd
-      subst hd
-      simp [hc]
-    | some call =>
-      rw [hc] at hd
-      simp only [] at hd
-      cases he : (notifyRound (order ls) react1).err with
-      | some e =>
-        rw [he] at hd
-        simp only [pure, Except.pure, Except.ok.injEq] at hd
-        subst hd
-        simp [hc, he]
-      | none =>
-        rw [he] at hd
-        simp only [pure, Except.pure, Except.ok.injEq] at hd
-        subst hd
-        simp [hc, he]
-
 /-! ### the snapshot semantics, said out loud -/
 
-theorem applyAct_mem_of_ne {live live' : List Nat} {a : ListenerAct} {x : Nat} (h : applyAct live a = .ok live')
+theorem applyAct_mem_of_ne {live live' : List Nat} {a : ListenerAct} {x : Nat} (h : applyAct catches live a = .ok live')
     (hx : x ∈ live) (hne : a ≠ .remove x) : x ∈ live' := by
   cases a with
   | add l =>
@@ -434,9 +346,11 @@ theorem applyAct_mem_of_ne {live live' : List Nat} {a : ListenerAct} {x : Nat} (
       refine ⟨hx, ?_⟩
       have : x ≠ l := fun e => hne (by rw [e])
       simpa using this
-    · cases h
+    · split at h
+      · cases h; exact hx
+      · cases h
 
-theorem applyAct_not_mem_of_ne {live live' : List Nat} {a : ListenerAct} {x : Nat} (h : applyAct live a = .ok live')
+theorem applyAct_not_mem_of_ne {live live' : List Nat} {a : ListenerAct} {x : Nat} (h : applyAct catches live a = .ok live')
     (hx : x ∉ live) (hne : a ≠ .add x) : x ∉ live' := by
   cases a with
   | add l =>
@@ -451,26 +365,28 @@ theorem applyAct_not_mem_of_ne {live live' : List Nat} {a : ListenerAct} {x : Na
     simp only [applyAct] at h
     split at h
     · cases h; intro hm; exact hx (List.mem_filter.1 hm).1
-    · cases h
+    · split at h
+      · cases h; exact hx
+      · cases h
 
 /-- the body of one callback, from an intermediate state -/
-def actsFrom (acts : List ListenerAct) (st : List Nat × Option PyExc) : List Nat × Option PyExc :=
+def actsFrom (catches : Bool) (acts : List ListenerAct) (st : List Nat × Option PyExc) : List Nat × Option PyExc :=
   acts.foldl (fun st a =>
     match st.2 with
     | some _ => st
-    | none => match applyAct st.1 a with
+    | none => match applyAct catches st.1 a with
       | .ok l => (l, none)
       | .error e => (st.1, some e)) st
 
-theorem runActs_eq (live : List Nat) (acts : List ListenerAct) : runActs live acts = actsFrom acts (live, none) := rfl
+theorem runActs_eq (live : List Nat) (acts : List ListenerAct) : runActs catches live acts = actsFrom catches acts (live, none) := rfl
 
-theorem actsFrom_err (acts : List ListenerAct) (st : List Nat × Option PyExc) (e : PyExc) (h : st.2 = some e) : actsFrom acts st = st := by
+theorem actsFrom_err (acts : List ListenerAct) (st : List Nat × Option PyExc) (e : PyExc) (h : st.2 = some e) : actsFrom catches acts st = st := by
   induction acts with
   | nil => rfl
   | cons a t ih => unfold actsFrom at ih ⊢; simp only [List.foldl_cons, h]; exact ih
 
 theorem actsFrom_persist (acts : List ListenerAct) (st : List Nat × Option PyExc) (x : Nat) (hx : x ∈ st.1)
-    (hno : ListenerAct.remove x ∉ acts) : x ∈ (actsFrom acts st).1 := by
+    (hno : ListenerAct.remove x ∉ acts) : x ∈ (actsFrom catches acts st).1 := by
   induction acts generalizing st with
   | nil => exact hx
   | cons a t ih =>
@@ -483,12 +399,12 @@ theorem actsFrom_persist (acts : List ListenerAct) (st : List Nat × Option PyEx
     | some e => exact hx
     | none =>
       simp only []
-      cases h3 : applyAct st.1 a with
+      cases h3 : applyAct catches st.1 a with
       | ok l => exact applyAct_mem_of_ne h3 hx hne
       | error e => exact hx
 
 theorem actsFrom_absent (acts : List ListenerAct) (st : List Nat × Option PyExc) (x : Nat) (hx : x ∉ st.1)
-    (hno : ListenerAct.add x ∉ acts) : x ∉ (actsFrom acts st).1 := by
+    (hno : ListenerAct.add x ∉ acts) : x ∉ (actsFrom catches acts st).1 := by
   induction acts generalizing st with
   | nil => exact hx
   | cons a t ih =>
@@ -501,13 +417,13 @@ theorem actsFrom_absent (acts : List ListenerAct) (st : List Nat × Option PyExc
     | some e => exact hx
     | none =>
       simp only []
-      cases h3 : applyAct st.1 a with
+      cases h3 : applyAct catches st.1 a with
       | ok l => exact applyAct_not_mem_of_ne h3 hx hne
       | error e => exact hx
 
 theorem actsFrom_added (acts : List ListenerAct) (st : List Nat × Option PyExc) (x : Nat)
-    (hadd : ListenerAct.add x ∈ acts) (hno : ListenerAct.remove x ∉ acts) (hok : (actsFrom acts st).2 = none) :
-    x ∈ (actsFrom acts st).1 := by
+    (hadd : ListenerAct.add x ∈ acts) (hno : ListenerAct.remove x ∉ acts) (hok : (actsFrom catches acts st).2 = none) :
+    x ∈ (actsFrom catches acts st).1 := by
   induction acts generalizing st with
   | nil => cases hadd
   | cons a t ih =>
@@ -516,10 +432,10 @@ theorem actsFrom_added (acts : List ListenerAct) (st : List Nat × Option PyExc)
       cases h2 : st.2 with
       | none => rfl
       | some e => rw [actsFrom_err _ st e h2, h2] at hok; cases hok
-    have hstep : actsFrom (a :: t) st = actsFrom t (match applyAct st.1 a with | .ok l => (l, none) | .error e => (st.1, some e)) := by
+    have hstep : actsFrom catches (a :: t) st = actsFrom catches t (match applyAct catches st.1 a with | .ok l => (l, none) | .error e => (st.1, some e)) := by
       unfold actsFrom; simp only [List.foldl_cons, hst]
     rw [hstep] at hok ⊢
-    cases h3 : applyAct st.1 a with
+    cases h3 : applyAct catches st.1 a with
     | error e =>
       rw [h3] at hok; simp only [] at hok
       rw [actsFrom_err _ _ e rfl] at hok; cases hok
@@ -536,8 +452,8 @@ theorem actsFrom_added (acts : List ListenerAct) (st : List Nat × Option PyExc)
       · exact ih _ hin hno' hok
 
 theorem actsFrom_removed (acts : List ListenerAct) (st : List Nat × Option PyExc) (x : Nat)
-    (hrem : ListenerAct.remove x ∈ acts) (hno : ListenerAct.add x ∉ acts) (hok : (actsFrom acts st).2 = none) :
-    x ∉ (actsFrom acts st).1 := by
+    (hrem : ListenerAct.remove x ∈ acts) (hno : ListenerAct.add x ∉ acts) (hok : (actsFrom catches acts st).2 = none) :
+    x ∉ (actsFrom catches acts st).1 := by
   induction acts generalizing st with
   | nil => cases hrem
   | cons a t ih =>
@@ -546,10 +462,10 @@ theorem actsFrom_removed (acts : List ListenerAct) (st : List Nat × Option PyEx
       cases h2 : st.2 with
       | none => rfl
       | some e => rw [actsFrom_err _ st e h2, h2] at hok; cases hok
-    have hstep : actsFrom (a :: t) st = actsFrom t (match applyAct st.1 a with | .ok l => (l, none) | .error e => (st.1, some e)) := by
+    have hstep : actsFrom catches (a :: t) st = actsFrom catches t (match applyAct catches st.1 a with | .ok l => (l, none) | .error e => (st.1, some e)) := by
       unfold actsFrom; simp only [List.foldl_cons, hst]
     rw [hstep] at hok ⊢
-    cases h3 : applyAct st.1 a with
+    cases h3 : applyAct catches st.1 a with
     | error e =>
       rw [h3] at hok; simp only [] at hok
       rw [actsFrom_err _ _ e rfl] at hok; cases hok
@@ -561,22 +477,25 @@ theorem actsFrom_removed (acts : List ListenerAct) (st : List Nat × Option PyEx
         simp only [applyAct] at h3
         split at h3
         · cases h3; simp
-        · cases h3
+        · rename_i hnc
+          split at h3
+          · cases h3; simpa using hnc
+          · cases h3
       · exact ih _ hin hno' hok
 
 theorem roundFrom_ok_of_ok (react : Nat → List ListenerAct) (todo : List Nat) (st : Round)
-    (h : (roundFrom react todo st).err = none) : st.err = none := by
+    (h : (roundFrom catches react todo st).err = none) : st.err = none := by
   cases he : st.err with
   | none => rfl
   | some e => rw [roundFrom_err react todo st e he, he] at h; cases h
 
 theorem roundFrom_cons (react : Nat → List ListenerAct) (l : Nat) (t : List Nat) (st : Round) (he : st.err = none) :
-    roundFrom react (l :: t) st
-      = roundFrom react t { called := st.called ++ [l], live := (runActs st.live (react l)).1, err := (runActs st.live (react l)).2 } := by
+    roundFrom catches react (l :: t) st
+      = roundFrom catches react t { called := st.called ++ [l], live := (runActs catches st.live (react l)).1, err := (runActs catches st.live (react l)).2 } := by
   unfold roundFrom; simp only [List.foldl_cons, he]
 
 theorem roundFrom_persist (react : Nat → List ListenerAct) (todo : List Nat) (st : Round) (x : Nat) (hx : x ∈ st.live)
-    (hno : ∀ l ∈ todo, ListenerAct.remove x ∉ react l) : x ∈ (roundFrom react todo st).live := by
+    (hno : ∀ l ∈ todo, ListenerAct.remove x ∉ react l) : x ∈ (roundFrom catches react todo st).live := by
   induction todo generalizing st with
   | nil => exact hx
   | cons l t ih =>
@@ -587,7 +506,7 @@ theorem roundFrom_persist (react : Nat → List ListenerAct) (todo : List Nat) (
       exact ih _ (by rw [runActs_eq]; exact actsFrom_persist _ _ x hx (hno l (by simp))) (fun l' hl' => hno l' (by simp [hl']))
 
 theorem roundFrom_absent (react : Nat → List ListenerAct) (todo : List Nat) (st : Round) (x : Nat) (hx : x ∉ st.live)
-    (hno : ∀ l ∈ todo, ListenerAct.add x ∉ react l) : x ∉ (roundFrom react todo st).live := by
+    (hno : ∀ l ∈ todo, ListenerAct.add x ∉ react l) : x ∉ (roundFrom catches react todo st).live := by
   induction todo generalizing st with
   | nil => exact hx
   | cons l t ih =>
@@ -597,24 +516,61 @@ theorem roundFrom_absent (react : Nat → List ListenerAct) (todo : List Nat) (s
       rw [roundFrom_cons react l t st he]
       exact ih _ (by rw [runActs_eq]; exact actsFrom_absent _ _ x hx (hno l (by simp))) (fun l' hl' => hno l' (by simp [hl']))
 
-/-- **C06 (snapshot semantics of a round).**  Whatever the callbacks do:
+/-- with the copy, the round is the plain loop over the snapshot -/
+theorem notifyRoundWith_eq_roundFrom (ls : List Nat) (react : Nat → List ListenerAct) :
+    notifyRoundWith true catches ls react = roundFrom catches react ls { called := [], live := ls, err := none } := by
+  unfold notifyRoundWith roundFrom
+  simp
+  rfl
+
+theorem roundFrom_called_ok (react : Nat → List ListenerAct) (todo : List Nat) (st : Round)
+    (h : (roundFrom catches react todo st).err = none) : (roundFrom catches react todo st).called = st.called ++ todo := by
+  induction todo generalizing st with
+  | nil => simp [roundFrom]
+  | cons l t ih =>
+    have he := roundFrom_ok_of_ok react _ st h
+    rw [roundFrom_cons react l t st he] at h ⊢
+    rw [ih _ h]; simp
+
+/-- whatever `async_remove_listener` catches: the listeners called are an initial segment of the snapshot taken at the start
+of the round, each at most once; if the round does not raise it is the whole snapshot, each exactly once; the live set stays
+duplicate-free -/
+theorem round_general (ls : List Nat) (hnodup : ls.Nodup) (react : Nat → List ListenerAct) :
+    (notifyRoundWith true catches ls react).called <+: ls
+    ∧ (∀ l, (notifyRoundWith true catches ls react).called.count l ≤ 1)
+    ∧ ((notifyRoundWith true catches ls react).err = none →
+        (notifyRoundWith true catches ls react).called = ls
+        ∧ ∀ l, (notifyRoundWith true catches ls react).called.count l = if l ∈ ls then 1 else 0)
+    ∧ (notifyRoundWith true catches ls react).live.Nodup := by
+  obtain ⟨k, h1, h2, h3, h4⟩ := roundFrom_spec (catches := catches) react ls { called := [], live := ls, err := none } hnodup
+  rw [notifyRoundWith_eq_roundFrom]
+  have hcalled : (roundFrom catches react ls { called := [], live := ls, err := none }).called = k := by
+    rw [h1]; simp
+  have hknodup : k.Nodup := List.Nodup.sublist h2.sublist hnodup
+  refine ⟨hcalled ▸ h2, fun l => ?_, fun herr => ?_, h4⟩
+  · rw [hcalled]; exact List.nodup_iff_count.1 hknodup l
+  · have hk := (h3 herr).2
+    rw [hcalled, hk]
+    exact ⟨rfl, fun l => List.Nodup.count hnodup⟩
+
+/-- snapshot semantics of a round, whatever `async_remove_listener` catches.  Whatever the callbacks do:
 * a listener that is not in the snapshot is not called in this round, even if a callback adds it;
 * if the round does not raise, a listener of the snapshot is called even if a callback removes it;
 * afterwards (no raise): a listener some callback added and none removed is registered — it will be called from the next
   round on; a listener some callback removed and none added is not; a listener nobody touched is registered iff it was. -/
-theorem C06_snapshot_semantics (ls : List Nat) (react : Nat → List ListenerAct) (x : Nat) :
-    (x ∉ ls → x ∉ (notifyRound ls react).called)
-    ∧ ((notifyRound ls react).err = none → x ∈ ls → x ∈ (notifyRound ls react).called)
-    ∧ ((notifyRound ls react).err = none → (∃ l ∈ ls, ListenerAct.add x ∈ react l) → (∀ l ∈ ls, ListenerAct.remove x ∉ react l) →
-        x ∈ (notifyRound ls react).live)
-    ∧ ((notifyRound ls react).err = none → (∃ l ∈ ls, ListenerAct.remove x ∈ react l) → (∀ l ∈ ls, ListenerAct.add x ∉ react l) →
-        x ∉ (notifyRound ls react).live)
-    ∧ ((∀ l ∈ ls, ListenerAct.add x ∉ react l ∧ ListenerAct.remove x ∉ react l) → (x ∈ (notifyRound ls react).live ↔ x ∈ ls)) := by
-  rw [notifyRound_eq_roundFrom]
+theorem snapshot_semantics_general (ls : List Nat) (react : Nat → List ListenerAct) (x : Nat) :
+    (x ∉ ls → x ∉ (notifyRoundWith true catches ls react).called)
+    ∧ ((notifyRoundWith true catches ls react).err = none → x ∈ ls → x ∈ (notifyRoundWith true catches ls react).called)
+    ∧ ((notifyRoundWith true catches ls react).err = none → (∃ l ∈ ls, ListenerAct.add x ∈ react l) → (∀ l ∈ ls, ListenerAct.remove x ∉ react l) →
+        x ∈ (notifyRoundWith true catches ls react).live)
+    ∧ ((notifyRoundWith true catches ls react).err = none → (∃ l ∈ ls, ListenerAct.remove x ∈ react l) → (∀ l ∈ ls, ListenerAct.add x ∉ react l) →
+        x ∉ (notifyRoundWith true catches ls react).live)
+    ∧ ((∀ l ∈ ls, ListenerAct.add x ∉ react l ∧ ListenerAct.remove x ∉ react l) → (x ∈ (notifyRoundWith true catches ls react).live ↔ x ∈ ls)) := by
+  rw [notifyRoundWith_eq_roundFrom]
   refine ⟨?_, ?_, ?_, ?_, ?_⟩
   · intro hx hc
     -- called is a prefix of the snapshot (no Nodup needed for this direction)
-    have gen : ∀ (todo : List Nat) (st : Round), ∀ y ∈ (roundFrom react todo st).called, y ∈ st.called ∨ y ∈ todo := by
+    have gen : ∀ (todo : List Nat) (st : Round), ∀ y ∈ (roundFrom catches react todo st).called, y ∈ st.called ∨ y ∈ todo := by
       intro todo
       induction todo with
       | nil => intro st y hy; exact Or.inl hy
@@ -634,7 +590,7 @@ theorem C06_snapshot_semantics (ls : List Nat) (react : Nat → List ListenerAct
     · cases h
     · exact hx h
   · intro herr hx
-    have gen : ∀ (todo : List Nat) (st : Round), (roundFrom react todo st).err = none → ∀ y ∈ todo, y ∈ (roundFrom react todo st).called := by
+    have gen : ∀ (todo : List Nat) (st : Round), (roundFrom catches react todo st).err = none → ∀ y ∈ todo, y ∈ (roundFrom catches react todo st).called := by
       intro todo
       induction todo with
       | nil => intro st _ y hy; cases hy
@@ -644,7 +600,7 @@ theorem C06_snapshot_semantics (ls : List Nat) (react : Nat → List ListenerAct
         rw [roundFrom_cons react l t st he] at hok ⊢
         rcases List.mem_cons.1 hy with rfl | hy'
         · -- called only grows
-          have grow : ∀ (todo : List Nat) (st : Round), ∀ z ∈ st.called, z ∈ (roundFrom react todo st).called := by
+          have grow : ∀ (todo : List Nat) (st : Round), ∀ z ∈ st.called, z ∈ (roundFrom catches react todo st).called := by
             intro todo
             induction todo with
             | nil => intro st z hz; exact hz
@@ -657,8 +613,8 @@ theorem C06_snapshot_semantics (ls : List Nat) (react : Nat → List ListenerAct
         · exact ih _ hok y hy'
     exact gen ls _ herr x hx
   · intro herr ⟨l0, hl0, hadd⟩ hno
-    have gen : ∀ (todo : List Nat) (st : Round), (roundFrom react todo st).err = none → l0 ∈ todo →
-        (∀ l ∈ todo, ListenerAct.remove x ∉ react l) → x ∈ (roundFrom react todo st).live := by
+    have gen : ∀ (todo : List Nat) (st : Round), (roundFrom catches react todo st).err = none → l0 ∈ todo →
+        (∀ l ∈ todo, ListenerAct.remove x ∉ react l) → x ∈ (roundFrom catches react todo st).live := by
       intro todo
       induction todo with
       | nil => intro st _ h; cases h
@@ -676,8 +632,8 @@ theorem C06_snapshot_semantics (ls : List Nat) (react : Nat → List ListenerAct
         · exact ih _ hok hin' (fun l' hl' => hno l' (by simp [hl']))
     exact gen ls _ herr hl0 hno
   · intro herr ⟨l0, hl0, hrem⟩ hno
-    have gen : ∀ (todo : List Nat) (st : Round), (roundFrom react todo st).err = none → l0 ∈ todo →
-        (∀ l ∈ todo, ListenerAct.add x ∉ react l) → x ∉ (roundFrom react todo st).live := by
+    have gen : ∀ (todo : List Nat) (st : Round), (roundFrom catches react todo st).err = none → l0 ∈ todo →
+        (∀ l ∈ todo, ListenerAct.add x ∉ react l) → x ∉ (roundFrom catches react todo st).live := by
       intro todo
       induction todo with
       | nil => intro st _ h; cases h
@@ -703,12 +659,151 @@ theorem C06_snapshot_semantics (ls : List Nat) (react : Nat → List ListenerAct
     · intro hx
       exact roundFrom_persist react ls _ x hx (fun l hl => (hno l hl).2)
 
+end
+
+/-! #### the code as it is (D18 repaired): a round never raises -/
+
+theorem applyAct_true_ok (ls : List Nat) (a : ListenerAct) : ∃ l, applyAct true ls a = .ok l := by
+  cases a with
+  | add l => exact ⟨_, rfl⟩
+  | remove l =>
+    simp only [applyAct]
+    split
+    · exact ⟨_, rfl⟩
+    · exact ⟨_, rfl⟩
+
+theorem actsFrom_true_ok (acts : List ListenerAct) (st : List Nat × Option PyExc) (h : st.2 = none) :
+    (actsFrom true acts st).2 = none := by
+  induction acts generalizing st with
+  | nil => exact h
+  | cons a t ih =>
+    unfold actsFrom at ih ⊢
+    simp only [List.foldl_cons, h]
+    obtain ⟨l, hl⟩ := applyAct_true_ok st.1 a
+    rw [hl]
+    exact ih _ rfl
+
+theorem roundFrom_true_ok (react : Nat → List ListenerAct) (todo : List Nat) (st : Round) (h : st.err = none) :
+    (roundFrom true react todo st).err = none := by
+  induction todo generalizing st with
+  | nil => exact h
+  | cons l t ih =>
+    rw [roundFrom_cons react l t st h]
+    apply ih
+    show (runActs true st.live (react l)).2 = none
+    rw [runActs_eq]
+    exact actsFrom_true_ok _ _ rfl
+
+/-- removing a listener that is not registered is a logged no-op: no callback can make a round raise -/
+theorem notifyRound_ok (ls : List Nat) (react : Nat → List ListenerAct) : (notifyRound ls react).err = none := by
+  unfold notifyRound
+  rw [notifyRoundWith_eq_roundFrom]
+  exact roundFrom_true_ok react ls _ rfl
+
+/-- **C06 (who is called), the sentence**: in a notification round every listener registered at its start (the snapshot) is
+called exactly once, whatever the callbacks do to the listener set.  `catches`: does `async_remove_listener` catch the
+`KeyError` of `set.remove`? -/
+def C06_listeners_statement (catches : Bool) : Prop :=
+  ∀ (ls : List Nat), ls.Nodup → ∀ react : Nat → List ListenerAct, ∀ l,
+    (notifyRoundWith true catches ls react).called.count l = if l ∈ ls then 1 else 0
+
+/-- **C06 (who is called).**  Listeners are notified on a copy of the listener set: in a round every listener registered
+at its start is called exactly once, in the snapshot's order, whatever the callbacks do to the set — add listeners, remove
+listeners (themselves, each other, twice, or ones that were never registered); the round never raises and the live set
+stays a set.  (`notifyRound` is the round with the two facts the translator reads off the code: the set is copied, and
+`async_remove_listener` catches `KeyError`.) -/
+theorem C06_listeners (ls : List Nat) (hnodup : ls.Nodup) (react : Nat → List ListenerAct) :
+    (notifyRound ls react).called = ls
+    ∧ (∀ l, (notifyRound ls react).called.count l = if l ∈ ls then 1 else 0)
+    ∧ (notifyRound ls react).err = none
+    ∧ (notifyRound ls react).live.Nodup := by
+  have hok := notifyRound_ok ls react
+  obtain ⟨_, _, h3, h4⟩ := round_general (catches := true) ls hnodup react
+  exact ⟨(h3 hok).1, (h3 hok).2, hok, h4⟩
+
+theorem C06_listeners_full : C06_listeners_statement true :=
+  fun ls hn react l => (C06_listeners ls hn react).2.1 l
+
+/-- **D18, before the repair** (1ae3781): with `except ValueError` only, the sentence was false.  Listener 1 removes listener 2;
+listener 2 — still called, the set was copied — removes itself, as a browser's `_async_cancel` or a lookup's `finally`
+would: the round ended there and listener 3 was never called. -/
+theorem C06_listeners_before_fix_refuted : ¬ C06_listeners_statement false := by
+  intro h
+  have := h [1, 2, 3] (by decide) (fun l => if l = 1 then [.remove 2] else if l = 2 then [.remove 2] else []) 3
+  revert this
+  decide
+
+/-- … and the datagram was lost: its new record was never cached, no `async_update_records_complete` was delivered, and the
+exception propagated out of `async_updates_from_response`; with the repair the same datagram is delivered completely -/
+theorem C06_remove_absent_aborted_ingestion_before_fix :
+    (∃ d, deliverWith true true false id id {} [1, 2, 3] 1000 [⟨"a.local.", 1, 1, false, 120, 0, .addr [10, 0, 0, 1] none⟩]
+        (fun l => if l = 1 then [.remove 2] else if l = 2 then [.remove 2] else []) (fun _ => []) = .ok d
+      ∧ d.err = some .keyError ∧ d.round1 = [1, 2] ∧ d.round2 = []
+      ∧ d.cache.getUnique id ⟨"a.local.", 1, 1, false, 120, 0, .addr [10, 0, 0, 1] none⟩ = none)
+    ∧ (∃ d, deliverWith true true true id id {} [1, 2, 3] 1000 [⟨"a.local.", 1, 1, false, 120, 0, .addr [10, 0, 0, 1] none⟩]
+        (fun l => if l = 1 then [.remove 2] else if l = 2 then [.remove 2] else []) (fun _ => []) = .ok d
+      ∧ d.err = none ∧ d.round1 = [1, 2, 3] ∧ d.round2 = [1, 3]
+      ∧ (d.cache.getUnique id ⟨"a.local.", 1, 1, false, 120, 0, .addr [10, 0, 0, 1] none⟩).isSome = true) :=
+  ⟨⟨_, rfl, by decide, by decide, by decide, by decide⟩, ⟨_, rfl, by decide, by decide, by decide, by decide⟩⟩
+
+/-- **C06 (the two rounds of a datagram).**  If the datagram has updates, round 1 (`async_update_records`) is the snapshot of
+the listener set at arrival, round 2 (`async_update_records_complete`) the snapshot of the set as round 1 left it — so a
+listener added during round 1 gets the complete call only, one removed during round 1 the update call only — nothing
+raises, and the cache at the end is the post-state; without updates nobody is called. -/
+theorem C06_deliver_rounds (order : List Nat → List Nat) (c : Cache) (ls : List Nat) (now : Ms) (recs : List Rec)
+    (react1 react2 : Nat → List ListenerAct) (d : Delivery) (hd : deliver lower order c ls now recs react1 react2 = .ok d) :
+    d.err = none ∧ d.cache = d.out.cache
+    ∧ match d.out.call1 with
+      | none => d.round1 = [] ∧ d.round2 = []
+      | some _ => d.round1 = order ls ∧ d.round2 = order (notifyRound (order ls) react1).live := by
+  unfold deliver deliverWith at hd
+  have hdef : ∀ (l : List Nat) (r : Nat → List ListenerAct), notifyRoundWith true true l r = notifyRound l r := fun _ _ => rfl
+  simp only [updates_iterates_copy_eq, complete_iterates_copy_eq, remove_listener_catches_keyerror_eq, hdef] at hd
+  have hcalled : ∀ (l : List Nat) (r : Nat → List ListenerAct), (notifyRound l r).called = l := by
+    intro l r
+    have h := notifyRound_ok l r
+    unfold notifyRound at h ⊢
+    rw [notifyRoundWith_eq_roundFrom] at h ⊢
+    rw [roundFrom_called_ok r l _ h]; simp
+  cases hi : ingest lower (Cache.ops lower) c now recs with
+  | error e => rw [hi] at hd; cases hd
+  | ok out =>
+    rw [hi] at hd
+    simp only [bind, Except.bind] at hd
+    cases hc : out.call1 with
+    | none =>
+      rw [hc] at hd
+      simp only [pure, Except.pure, Except.ok.injEq] at hd
+      subst hd
+      simp [hc]
+    | some call =>
+      rw [hc] at hd
+      simp only [notifyRound_ok] at hd
+      simp only [pure, Except.pure, Except.ok.injEq] at hd
+      subst hd
+      simp [hc, hcalled, notifyRound_ok]
+
+/-- **C06 (snapshot semantics of a round).**  Whatever the callbacks do:
+* a listener that is not in the snapshot is not called in this round, even if a callback adds it;
+* a listener of the snapshot is called even if a callback removes it;
+* afterwards a listener some callback added and none removed is registered — it will be called from the next round on; a
+  listener some callback removed and none added is not; a listener nobody touched is registered iff it was. -/
+theorem C06_snapshot_semantics (ls : List Nat) (react : Nat → List ListenerAct) (x : Nat) :
+    (x ∉ ls → x ∉ (notifyRound ls react).called)
+    ∧ (x ∈ ls → x ∈ (notifyRound ls react).called)
+    ∧ ((∃ l ∈ ls, ListenerAct.add x ∈ react l) → (∀ l ∈ ls, ListenerAct.remove x ∉ react l) → x ∈ (notifyRound ls react).live)
+    ∧ ((∃ l ∈ ls, ListenerAct.remove x ∈ react l) → (∀ l ∈ ls, ListenerAct.add x ∉ react l) → x ∉ (notifyRound ls react).live)
+    ∧ ((∀ l ∈ ls, ListenerAct.add x ∉ react l ∧ ListenerAct.remove x ∉ react l) → (x ∈ (notifyRound ls react).live ↔ x ∈ ls)) := by
+  have hok := notifyRound_ok ls react
+  obtain ⟨h1, h2, h3, h4, h5⟩ := snapshot_semantics_general (catches := true) ls react x
+  exact ⟨h1, h2 hok, h3 hok, h4 hok, h5⟩
+
 /-- what a delivery shows the listeners is the one `ingest` of C06_post_state / C06_calls: every listener of round 1 is
 handed `d.out.call1` (the pair list and the cache of `C06_calls`), every listener of round 2 sees `d.out.cache` -/
 theorem C06_delivery_out (order : List Nat → List Nat) (c : Cache) (ls : List Nat) (now : Ms) (recs : List Rec)
     (react1 react2 : Nat → List ListenerAct) (d : Delivery) (hd : deliver lower order c ls now recs react1 react2 = .ok d) :
     ingest lower (Cache.ops lower) c now recs = .ok d.out := by
-  unfold deliver at hd
+  unfold deliver deliverWith at hd
   cases hi : ingest lower (Cache.ops lower) c now recs with
   | error e => rw [hi] at hd; cases hd
   | ok out =>
